@@ -54,6 +54,38 @@ fn scripts(kmax: usize, full: bool) -> Vec<ActScript> {
     out
 }
 
+/// Star graphs: init plus `k` sibling commands (k concurrent heads), k = 2..=kmax, delivered by one or by
+/// two sync transactions, then an action (which collapses the k heads) and a follow-up action.
+pub fn wide_dags(kmax: usize) -> Vec<Dag> {
+    use rtlib::dag::{Kind, Node};
+    (2..=kmax)
+        .map(|k| {
+            let mut nodes = vec![Node { kind: Kind::Init, parents: vec![], rank: 0x08, prog: vec![Op::Append] }];
+            for i in 0..k {
+                nodes.push(Node { kind: Kind::Basic(0), parents: vec![0], rank: 0x10 + 0x0d * i as u8, prog: vec![Op::Append, Op::Emit(1)] });
+            }
+            Dag { nodes, merge_rank: MergeRank::Hash }
+        })
+        .collect()
+}
+
+pub fn wide_cases(d: &Dag, act: &ActScript, follow: &ActScript, f: &mut dyn FnMut(&[Ev])) {
+    let n = d.len();
+    // all heads in one transaction
+    f(&[Ev::Add { trx: 0, nodes: (0..n).collect() }, Ev::Commit { trx: 0 }, Ev::Action(act.clone()), Ev::Action(follow.clone())]);
+    // heads arriving in two transactions (every split point)
+    for cut in 2..n {
+        f(&[
+            Ev::Add { trx: 0, nodes: (0..cut).collect() },
+            Ev::Commit { trx: 0 },
+            Ev::Add { trx: 1, nodes: (cut..n).collect() },
+            Ev::Commit { trx: 1 },
+            Ev::Action(act.clone()),
+            Ev::Action(follow.clone()),
+        ]);
+    }
+}
+
 fn base_events(h: &crate::history::History) -> Vec<Ev> {
     let mut evs = Vec::new();
     let n = h.order.len();
@@ -203,6 +235,20 @@ pub fn run(args: &Args, prop: &str) {
         });
         families.push(json!({"family": "states reached by sync with one command refused at origin (every position), then an action", "universes": dags.len(), "executions": ex}));
         rep.require_nonzero("rejected_adds");
+    }
+    {
+        // wide head sets: an action on k = 2..=16 concurrent heads must commit ONE head that descends
+        // from every previous head (nothing a sync committed may drop out of the collapse chain)
+        let dags = wide_dags(16);
+        let filter: crate::props::simrun::Filter = if prop == "C04" {
+            |c, _| matches!(c, "action-view" | "lazy-merge-view" | "action-parent" | "hello-vs-collapse" | "hello")
+        } else {
+            |c, _| matches!(c, "action-outcome" | "action-sink" | "failed-op-changed-state" | "heads" | "cmdset" | "facts" | "effects" | "history-shrank")
+        };
+        let ex = run_all(&mut rep, "wide", &dags, oracles, false, filter, |d, f| wide_cases(d, &pub1, &follow, f));
+        rep.count("wide_head_set_executions", ex);
+        families.push(json!({"family": "k = 2..16 concurrent heads (one or two sync transactions), then an action and a follow-up", "universes": dags.len(), "executions": ex}));
+        rep.require_nonzero("wide_head_set_executions");
     }
     rep.require_nonzero("ok_actions");
     rep.require_nonzero("collapses");
